@@ -202,6 +202,23 @@ def run_case(concepts, case, spec):
     thorough = spec['tier'] == 'thorough'
     COL.sample({'table': case, 'n_concepts': sl.n,
                 'calls': 'upset/downset of each concept; unions over pairs and multisets'})
+    # first thing on a fresh lattice (a lazily filled cache would still be empty here):
+    # two traversals of the same concept alive at once (nested loops in user code): the
+    # suspended one must not lose what the other one pulls meanwhile
+    for _ in range(6):
+        c = members[rng.randrange(n)]
+        for make in ((lambda: c.upset()), (lambda: c.downset()),
+                     (lambda: lat.upset_union([c, members[rng.randrange(n)]]))):
+            it1 = call(make)
+            if it1 is RAISED:
+                continue
+            for _ in range(rng.randint(0, 2)):
+                next(it1, None)
+            it2 = call(make)
+            if it2 is not RAISED:
+                call(list, it2)
+            call(list, it1)
+            COL.count('interleaved_traversals')
     which = range(n) if n <= (300 if thorough else 120) else rng.sample(range(n), 300 if thorough else 120)
     for k in which:
         call(list, members[k].upset())
@@ -233,22 +250,6 @@ def run_case(concepts, case, spec):
         for _ in range(rng.randint(0, 3)):
             next(it, None)
         del it
-    # two traversals of the same concept alive at once (nested loops in user code): the
-    # suspended one must not lose what the other one pulls meanwhile
-    for _ in range(6):
-        c = members[rng.randrange(n)]
-        for make in ((lambda: c.upset()), (lambda: c.downset()),
-                     (lambda: lat.upset_union([c, members[rng.randrange(n)]]))):
-            it1 = call(make)
-            if it1 is RAISED:
-                continue
-            for _ in range(rng.randint(0, 2)):
-                next(it1, None)
-            it2 = call(make)
-            if it2 is not RAISED:
-                call(list, it2)
-            call(list, it1)
-            COL.count('interleaved_traversals')
     old = POOL.older(rng)
     if old is not None:
         olat, omem = old
